@@ -182,6 +182,8 @@ def judge_case(T: dict, case: dict, loaders_by_k: dict, reps: int, bad: dict, ou
                 sig = {"what": what, "type": ctor_key(T), "datum": datum_key(d), "strict": s}
                 if extra_sig:
                     sig.update(extra_sig)
+                if what == "input_value_is_not_the_value_at_the_trail":
+                    sig = {"what": what, "error": sig.get("error")}       # (one finding per error class, not per type and datum)
                 if cat == "C04":
                     # the failing call site is identified by (loader of which type, which foreign exception class)
                     sig = {"what": what, "type": ctor_key(T), "exc": sig["exc"], **({"unhashable_result": True} if sig.get("unhashable_result") else {})}
@@ -234,6 +236,20 @@ def judge_case(T: dict, case: dict, loaders_by_k: dict, reps: int, bad: dict, ou
                         elif len(paths) != 1 or paths[0] not in want:
                             add("C05", "first_mode_error_misplaced",
                                 f"FIRST: reported {paths}, invalid positions are {sorted(want)}", dt.name)
+                        # "... reaches exactly the offending sub-value": the value an error carries as its input_value is the (scalar)
+                        # sub-value its trail leads to
+                        if all(p is not None for p in paths):
+                            for (tr, exc), p in zip(leaves, paths):
+                                iv = _input_value(exc)
+                                _, nd = type_at(T, node, p)
+                                if iv is _NOIV or nd.c != "atom" or nd.a in univ.STATEFUL_TOKENS:
+                                    continue
+                                v = nd.value
+                                if not (iv is v or (type(iv) is type(v) and (iv == v or (iv != iv and v != v)))):  # noqa: PLR0124
+                                    add("C05", "input_value_is_not_the_value_at_the_trail",
+                                        f"{dt.name}: {type(exc).__name__} at trail {list(tr)} carries input_value={iv!r}; the sub-value there is {v!r}", dt.name,
+                                        {"error": type(exc).__name__})
+                                    break
             # ---- C06: the three modes agree -------------------------------------------------
             tags = {dt.name: obs[(s, dt.name)][0] for dt in modes()}
             if len(set(tags.values())) > 1:
